@@ -831,6 +831,29 @@ func c02FiltersExtracted(p *Prog, r *Report, rule string) {
 						continue
 					}
 					t := forwardTaint(ex)
+					// values handed to an extracted helper continue in its parameters
+					for round := 0; round < 2; round++ {
+						var more []ssa.Value
+						for _, sf := range p.ScopeFns(fn) {
+							forEachCallOwn(sf, func(site ssa.CallInstruction) {
+								h := site.Common().StaticCallee()
+								if h == nil || h.Blocks == nil || !p.helperCandidate(h) {
+									return
+								}
+								for ai, a := range argsWithRecv(site.Common()) {
+									if t[a] && ai < len(h.Params) && !t[h.Params[ai]] {
+										more = append(more, h.Params[ai])
+									}
+								}
+							})
+						}
+						if len(more) == 0 {
+							break
+						}
+						for v := range forwardTaint(more...) {
+							t[v] = true
+						}
+					}
 					for _, sf := range p.ScopeFns(fn) {
 						for _, b := range sf.Blocks {
 							for _, ins := range b.Instrs {
